@@ -157,6 +157,22 @@ def harnesses_for(rate_name: str, rate: Fraction):
 
   hs.append(Harness(f"to_time_format.frames@{rate_name}", time_format_frames, ["ttconv.imsc.attributes:to_time_format"],
                     "replayers.c12:time_format_frames", ra, "frames syntax writes ceil(t*rate) exactly"))
+
+  def time_format_clock(ctx):
+    """clock-time syntax chosen while a frame rate is ALSO configured: the frame rate must not influence the millisecond value"""
+    t = sym_frac("t")
+    assume(t >= 0)
+    assume(t < BOUND)
+    wctx = A.TemporalAttributeWritingContext(frame_rate=rate, time_expression_syntax=A.TimeExpressionSyntaxEnum.clock_time)
+    st, out = core.call_real(A.to_time_format, wctx, t)
+    lits, toks = core.tokens_in(out)
+    prove(lits == ["", ":", ":", ".", ""] and len(toks) == 4, "P7-clock-time-shape(hh:mm:ss.mmm)", note=repr(lits))
+    if len(toks) == 4:
+      total = ((toks[0][0] * 60 + toks[1][0]) * 60 + toks[2][0]) * 1000 + toks[3][0]
+      prove(total == round(t * 1000), "P7-clock-time-with-a-frame-rate-configured==nearest-millisecond(ties-to-even)")
+
+  hs.append(Harness(f"to_time_format.clock_time@{rate_name}", time_format_clock, ["ttconv.imsc.attributes:to_time_format", M + "ClockTime.from_seconds"],
+                    "replayers.c12:time_format_clock", ra, "clock-time syntax writes the nearest millisecond whatever frame rate is configured"))
   return hs
 
 
